@@ -2,9 +2,17 @@
 From KG Require Import Prelude C06_Model C06_Spec.
 Open Scope Z_scope.
 
+(* a request for schema "tb" (clock reading, reached the upstream / admitted?, HTTP status) or a re-sync of
+   the cluster's flow-control spec; after each: what GetFlowSchema("tb") returns (is it a token-bucket
+   limiter, and its qps / burst as printed by String()) *)
+Inductive dop := DTry (t : Z) (reached : bool) (status : Z) | DSync (spec : fcspec).
+Record lk := { lk_tb : bool; lk_q : Z; lk_b : Z }.
+
 Inductive case :=
 | CTrace (q b : Z) (tr : list (op * bool))              (* ops on one real resizeableTokenBucket + returned bools *)
-| CDisp (q b : Z) (tr : list (Z * bool * Z))            (* real dispatcher: clock reading, reached upstream?, HTTP status *)
+| CDisp (spec0 : fcspec) (tr : list (dop * lk))         (* real ClusterInfo / upstreamLimiter with several schemas;
+                                                           requests for schema "tb" (through the real dispatcher, or
+                                                           GetOrDefault per request), re-syncs of the whole spec *)
 | CConc (q b : Z) (calls : list (Z * Z * Z * bool))      (* real goroutines under a scripted schedule, in order of
                                                             completion: invocation, clock reading, completion, admitted? *)
 | CRt (q b calls admitted elapsed : Z)                  (* real clock, sequential, fresh bucket *)
@@ -53,22 +61,62 @@ Fixpoint segments (c : cfg) (acc : list ev) (tr : list (op * bool)) : list (cfg 
 Definition all_segments (f : cfg -> list ev -> bool) (segs : list (cfg * list ev)) : bool :=
   forallb (fun p => f (fst p) (snd p)) segs.
 
-Definition disp_ops (tr : list (Z * bool * Z)) : list (op * bool) :=
-  map (fun x => (OTry (fst (fst x)), snd (fst x))) tr.
+Definition tb_cfg (spec : fcspec) : option cfg :=
+  match alookup "tb" spec with Some (STb q b) => Some {| qps := q; burst := b |} | _ => None end.
 
-(* clause layout: agree, closed, open, lower, status *)
+(* the model of the limiter map, following observed decisions inside the float band like [agree_ops] *)
+Fixpoint agree_ulim (u : ulim) (tr : list (dop * lk)) : bool :=
+  match tr with
+  | [] => true
+  | (DTry now reached _, _) :: rest =>
+      match alookup "tb" (umap u) with
+      | Some (Some rt) =>
+          let '(s', a) := follow (rc rt) (rs rt) now reached in
+          a && agree_ulim {| uspec := uspec u; umap := aset "tb" (Some {| rc := rc rt; rs := s' |}) (umap u) |} rest
+      | _ => reached && agree_ulim u rest
+      end
+  | (DSync spec, _) :: rest => agree_ulim (usync u spec) rest
+  end.
+
+(* the bucket's own view: a re-sync is a Resize to the values the new spec gives "tb" (a no-op when they are
+   unchanged: the schema is NOT reconfigured and its windows run across the re-sync) *)
+Fixpoint disp_ops (tr : list (dop * lk)) : option (list (op * bool)) :=
+  match tr with
+  | [] => Some []
+  | (DTry t reached _, _) :: rest => option_map (cons (OTry t, reached)) (disp_ops rest)
+  | (DSync spec, _) :: rest =>
+      match tb_cfg spec with
+      | Some c => option_map (cons (OResize (qps c) (burst c), true)) (disp_ops rest)
+      | None => None
+      end
+  end.
+
+(* after every operation GetFlowSchema("tb") is a token-bucket limiter with the configured values *)
+Fixpoint lookup_ok (c : cfg) (tr : list (dop * lk)) : bool :=
+  match tr with
+  | [] => true
+  | (o, l) :: rest =>
+      let c' := match o with DSync spec => match tb_cfg spec with Some c2 => c2 | None => c end | _ => c end in
+      (lk_tb l && (lk_q l =? qps c') && (lk_b l =? burst c') && lookup_ok c' rest)%bool
+  end.
+
+(* clause layout: agree, closed, open, lower, status, lookup *)
 Definition eval (c : case) : list bool :=
   match c with
   | CTrace q b tr =>
       let segs := segments {| qps := q; burst := b |} [] tr in
       [ agree_ops (rtb_new q b) tr;
-        all_segments closed_ok segs; all_segments open_ok segs; all_segments lower_ok segs; true ]
-  | CDisp q b tr =>
-      let ops := disp_ops tr in
-      let segs := segments {| qps := q; burst := b |} [] ops in
-      [ agree_ops (rtb_new q b) ops;
-        all_segments closed_ok segs; all_segments open_ok segs; all_segments lower_ok segs;
-        forallb (fun x => status_ok (snd (fst x)) (snd x)) tr ]
+        all_segments closed_ok segs; all_segments open_ok segs; all_segments lower_ok segs; true; true ]
+  | CDisp spec0 tr =>
+      match tb_cfg spec0, disp_ops tr with
+      | Some c0, Some ops =>
+          let segs := segments c0 [] ops in
+          [ agree_ulim (usync ulim_new spec0) tr;
+            all_segments closed_ok segs; all_segments open_ok segs; all_segments lower_ok segs;
+            forallb (fun x => match fst x with DTry _ r st => status_ok r st | _ => true end) tr;
+            lookup_ok c0 tr ]
+      | _, _ => [false; false; false; false; false; false]
+      end
   | CConc q b calls =>
       let c := {| qps := q; burst := b |} in
       let ops := map (fun x => (OTry (snd (fst (fst x))), snd x)) calls in
@@ -79,17 +127,17 @@ Definition eval (c : case) : list bool :=
       [ (agree_ops (rtb_new q b) ops
          && forallb (fun x => (fst (fst (fst x)) <=? snd (fst (fst x))) && (snd (fst (fst x)) <=? snd (fst x))) calls
          && match evs with [] => true | e :: r => sorted_from (etime e) r end)%bool;
-        (conc_ok c cevs && closed_ok c evs)%bool; open_ok c evs; true; true ]
+        (conc_ok c cevs && closed_ok c evs)%bool; open_ok c evs; true; true; true ]
   | CRt q b calls admitted elapsed =>
       let c := {| qps := q; burst := b |} in
       (* model: all calls at one clock reading admit exactly what a fresh bucket holds *)
       let m := Z.of_nat (List.length (filter (fun x => x) (run c init_st (repeat (0, 1) (Z.to_nat calls))))) in
-      [ m <=? admitted; rt_upper c admitted elapsed; true; rt_lower c calls admitted; true ]
+      [ m <=? admitted; rt_upper c admitted elapsed; true; rt_lower c calls admitted; true; true ]
   | CRtConc q b admitted elapsed many strict =>
       let c := {| qps := q; burst := b |} in
       (* callers read the clock before taking the limiter's lock: the closed bound is owed only up to
          qps * (sum of backward steps), which a real-time run cannot observe (C06_upper_skew) *)
       [ true; (if strict then rt_upper c admitted elapsed else true); true;
-        (if many then burst c <=? admitted else true); true ]
-  | CBad => [false; false; false; false; false]
+        (if many then burst c <=? admitted else true); true; true ]
+  | CBad => [false; false; false; false; false; false]
   end.
